@@ -299,3 +299,42 @@ def run_handles_only(prog, rep):
     rule.check(creators == {('nix::hdf5::H5Group::createLink', 'H5Lcreate_hard')}, 'links|hard-only', 'backend/hdf5/h5x/H5Group.cpp:0', 'H5Lcreate*',
                'entity links are hard links created only by H5Group::createLink', 'links are created by %s' % sorted(creators))
     return rule
+
+
+def run_getters(prog, rep, only=None, floor=10):
+    """optional-valued getters answer from the stored attribute alone: 'not set' only when the key is absent"""
+    from ..absint import GenericInterp
+    rule = rep.rule('R-GETTER', 'an optional-valued backend getter reports "not set" only on a path that found its key absent (format < 1.1.1 property values excepted)', floor=floor)
+    ACC = ('getAttr', 'hasAttr', 'getData', 'hasData', 'hasGroup', 'openGroup', 'openData')
+    n = 0
+    for f in sorted(prog.funcs.values(), key=lambda f: (f.file, f.line)):
+        if not (f.cls and f.cls.startswith('nix::hdf5::') and f.cls.endswith('HDF5') and f.is_const and f.body is not None and 'optional' in (f.ret or '') and not f.params):
+            continue
+        if only is not None and f.cls not in only:
+            continue
+        if 'H5Group' in (f.ret or ''):
+            continue
+        it = GenericInterp(prog, watch=lambda n: (n.callee or {}).get('name') in ACC)
+        try:
+            res = it.enumerate(f, this='THIS', args=[])
+        except Exception as e:   # an idiom the interpreter does not know: inconclusive, not a verdict
+            raise AnalysisBroken('R-GETTER: cannot enumerate %s: %s' % (f.q, e))
+        n += 1
+        probs = []
+        for assign, out, log, fields in res:
+            if out[0] != 'ret':
+                continue
+            oldfmt = any('FormatVersion' in repr(k) and v for k, v in assign.items())
+            consulted = [l for l in log if l[0] in ACC and len(l) > 2 and isinstance(l[2], str)]
+            empty = isinstance(out[1], tuple) and out[1][:2] == ('new', 'boost::optional') and len(out[1]) == 2
+            if empty and not consulted and not oldfmt:
+                why = [repr(k)[:70] for k, v in assign.items()]
+                probs.append('returns "not set" without looking at the stored key (decided by %s): a stored value is hidden' % (why[:2] or 'nothing'))
+            if empty and consulted:
+                found = [v for k, v in assign.items() if k[0] == 'bool' and k[1] in ('getAttr', 'hasAttr', 'hasData', 'hasGroup')]
+                if found and all(found):
+                    probs.append('returns "not set" although the key was found')
+        rule.check(not probs, '%s::%s' % (f.cls, f.name), rep.where(f), f.label(), 'every "not set" outcome follows an absent key (%d paths)' % len(res), '; '.join(sorted(set(probs))[:2]))
+    if n < floor:
+        raise AnalysisBroken('R-GETTER: only %d optional getters found' % n)
+    return rule
